@@ -67,7 +67,7 @@ def run(tier, seed):
                 smism = V.compare_model(c, exe_m, cases, "c19", spec=True)
                 for v in (st.get("impl_violations") or []):
                     c.failing_input("impl-oracle", v, v)
-        n2 = 300 if tier == "quick" else 8000
+        n2 = 200 if tier == "quick" else 8000
         excl = ",".join(time_dependent())
         rc, out, cases2, st2 = V.run_harness("c19", "c19impl", seed, n2, tier, extra=["exclude=" + excl])
         if rc != 0:
